@@ -190,10 +190,17 @@ def run(rep, tier, root=None):
         if v is None or has_unknown(v):
             rep.unknown("B1.block-sums", tag, "unrecognised constructs", f.where())
             continue
-        rank = 2 if any(c == "len(data.shape) == 2" for c in conds) else None
+        rank = 2 if any(c.replace(" ", "") in ("len(data.shape)==2", "data.ndim==2", "numpy.ndim(data)==2", "2==data.ndim") for c in conds) else None
         check_equal(rep, "B1.block-sums", tag + " == sum_i (sum_j data[..., j::n])[..., i::n, :]", canon_lead(v, rank), canon_lead(want),
                     f.where(), what="binned image")
     divs = [(s[2], s[3], s[4]) for s in I.store_log if s[0] == f.fq and s[5] == "Div"]
+    nn_ = Rat.atom(Fn("int", (Rat.atom(Fn("round", (n,))),)))
+    for s_ in I.store_log:
+        # the same update written out: shape[k] = shape[k] / n
+        if s_[0] == f.fq and s_[5] == "=" and isinstance(s_[2], Rat) and s_[2].is_const() and isinstance(s_[3], Rat) and \
+                s_[3].depends_on(Sym("n")) and not (s_[3] * nn_).depends_on(Sym("n")) and "shape" in str(s_[1]).lower():
+            divs.append((s_[2], nn_, s_[4]))
+    divs.sort(key=lambda t_: t_[2])
     axes = [int(complex(i.const_value()).real) for i, v, l in divs if isinstance(i, Rat) and i.is_const()]
     nn = Rat.atom(Fn("int", (Rat.atom(Fn("round", (n,))),)))
     rep.check(len(axes) >= 2 and axes == [-1, -2] * (len(axes) // 2) and all(same_value(v, nn) for i, v, l in divs), "B1.shapes",
